@@ -34,6 +34,7 @@ was not observed is inconclusive.
 """
 import itertools
 import re
+import reprlib
 import warnings
 
 from ..models import dpkgver
@@ -252,6 +253,14 @@ def cases(ctx):
 # ---------------------------------------------------------------------------
 # domain guard, builder, oracle
 
+_REPR = reprlib.Repr()
+_REPR.maxlist = _REPR.maxtuple = _REPR.maxdict = 8
+_REPR.maxlevel = 7
+_REPR.maxstring = 400
+_REPR.maxother = 160
+rp = _REPR.repr        # bounded repr: a runaway result must not make the monitor itself slow
+
+
 def atom_in_domain(a):
     try:
         if not (isinstance(a['n'], str) and RE_NAME.match(a['n'])):
@@ -321,25 +330,25 @@ def diff(PR, got, want):
                     return 'type/name', 'name is %r' % type(d['name'])
                 for t in d['arch'] or []:
                     if not isinstance(t, PR.ArchRestriction) or type(t.enabled) is not bool:
-                        return 'type/arch-term', 'arch term %r is not ArchRestriction(bool, str)' % (t,)
+                        return 'type/arch-term', 'arch term %s is not ArchRestriction(bool, str)' % rp(t)
                 for t in itertools.chain.from_iterable(d['restrictions'] or []):
                     if not isinstance(t, PR.BuildRestriction) or type(t.enabled) is not bool:
-                        return 'type/restriction-term', 'restriction term %r is not BuildRestriction(bool, str)' % (t,)
+                        return 'type/restriction-term', 'restriction term %s is not BuildRestriction(bool, str)' % rp(t)
         return None
     if not isinstance(got, list) or len(got) != len(want):
-        return 'grouping/and-groups', 'expected %d AND-groups, got %r' % (len(want), got)
+        return 'grouping/and-groups', 'expected %d AND-groups, got %s' % (len(want), rp(got))
     for gi, (g, w) in enumerate(zip(got, want)):
         if not isinstance(g, list) or len(g) != len(w):
-            return 'grouping/alternatives', 'group %d: expected %d alternatives, got %r' % (gi, len(w), g)
+            return 'grouping/alternatives', 'group %d: expected %d alternatives, got %s' % (gi, len(w), rp(g))
         for ai, (d, wd) in enumerate(zip(g, w)):
             if d == wd:
                 continue
             if not isinstance(d, dict) or set(d) != set(wd):
-                return 'atom-keys', 'atom %d.%d: expected keys %r, got %r' % (gi, ai, sorted(wd), d)
+                return 'atom-keys', 'atom %d.%d: expected keys %r, got %s' % (gi, ai, sorted(wd), rp(d))
             for k in ('name', 'archqual', 'version', 'arch', 'restrictions'):
                 if d[k] != wd[k]:
-                    return 'field/%s' % k, 'atom %d.%d: %s expected %r, got %r' % (gi, ai, k, wd[k], d[k])
-    return 'unequal', 'expected %r, got %r' % (want, got)
+                    return 'field/%s' % k, 'atom %d.%d: %s expected %s, got %s' % (gi, ai, k, rp(wd[k]), rp(d[k]))
+    return 'unequal', 'expected %s, got %s' % (rp(want), rp(got))
 
 
 def roundtrip(ctx, PR, desc, mon=True):
@@ -354,18 +363,18 @@ def roundtrip(ctx, PR, desc, mon=True):
     if mon:
         ctx.mon('M')
     if not isinstance(text, str):
-        return ('str-returns-non-string', 'str() returned %r' % (text,)), text, given, back
+        return ('str-returns-non-string', 'str() returned %s' % rp(text)), text, given, back
     if caught:
-        return (('parse-warning', 'parse_relations(%r) warned: %s' % (text, '; '.join(str(w.message) for w in caught[:3]))),
+        return (('parse-warning', 'parse_relations(%s) warned: %s' % (rp(text), '; '.join(str(w.message)[:300] for w in caught[:3]))),
                 text, given, back)
     d = diff(PR, back, want)
     if d is not None:
-        return ('roundtrip-differs/%s' % d[0], 'parse_relations(%r): %s' % (text, d[1])), text, given, back
+        return ('roundtrip-differs/%s' % d[0], 'parse_relations(%s): %s' % (rp(text), d[1])), text, given, back
     again = PR.str(back)
     if mon:
         ctx.mon('M.idem')
     if again != text:
-        return ('reformat-differs', 'str(R)=%r but str(parse(str(R)))=%r' % (text, again)), text, given, back
+        return ('reformat-differs', 'str(R)=%s but str(parse(str(R)))=%s' % (rp(text), rp(again))), text, given, back
     return None, text, given, back
 
 
@@ -376,8 +385,8 @@ def shrink(ctx, PR, desc, fail):
             for a in g:
                 f = roundtrip(ctx, PR, [[a]], mon=False)[0]
                 if f is not None:
-                    return f, {'kind': 'rt', 'rels': [[a]]}
-    return fail, {'kind': 'rt', 'rels': desc}
+                    return f, {'kind': 'rt', 'rels': [[a]], 'repeat': 2}
+    return fail, {'kind': 'rt', 'rels': desc, 'repeat': 2}
 
 
 def account(ctx, desc):
@@ -393,7 +402,12 @@ def account(ctx, desc):
 def run_rt(ctx, PR, case):
     desc = case['rels']
     nt = account(ctx, desc)
-    fail = roundtrip(ctx, PR, desc)[0]
+    # witnesses carry repeat=2: a defect that needs an earlier call in the same process (state kept
+    # between parses) then still reproduces from a fresh interpreter
+    for _ in range(max(1, min(int(case.get('repeat', 1)), 5))):
+        fail = roundtrip(ctx, PR, desc)[0]
+        if fail is not None:
+            break
     if nt:
         ctx.nontrivial()
     if fail is not None:
@@ -505,9 +519,9 @@ def observe_relations(PR, cls, clsname, init, paras, on_eval=None):
         for name, desc in fields:
             if on_eval is not None:
                 on_eval()
-            where = '%s(%s).relations[%r] for field value %r' % (clsname, init, name.lower(), obj[name])
+            where = '%s(%s).relations[%r] for field value %s' % (clsname, init, name.lower(), rp(obj[name]))
             if caught:
-                return 'parse-warning', '%s warned: %s' % (where, '; '.join(str(w.message) for w in caught[:3]))
+                return 'parse-warning', '%s warned: %s' % (where, '; '.join(str(w.message)[:300] for w in caught[:3]))
             try:
                 got = rel[name]
             except KeyError:
@@ -517,7 +531,7 @@ def observe_relations(PR, cls, clsname, init, paras, on_eval=None):
                 return 'differs/%s' % d[0], '%s: %s' % (where, d[1])
             again = PR.str(got)
             if again != obj[name]:
-                return 'reformat-differs', '%s: formats back to %r' % (where, again)
+                return 'reformat-differs', '%s: formats back to %s' % (where, rp(again))
     return None
 
 
